@@ -52,6 +52,7 @@ func main() {
 	only := flag.String("rule", "", "run only this rule (debugging; no evidence written)")
 	verbose := flag.Bool("v", false, "print every obligation")
 	manifest := flag.Bool("manifest", false, "regenerate MANIFEST.json from the rule registry")
+	seeded := flag.Bool("seeded", false, "apply every seeded/*/patch.diff to a scratch copy and expect the property's checks to report it")
 	selftest := flag.Bool("selftest", false, "run the checker's own must-fire / must-stay-silent corpus")
 	flag.Parse()
 
@@ -82,6 +83,8 @@ func main() {
 	switch {
 	case *manifest:
 		os.Exit(runManifest())
+	case *seeded:
+		os.Exit(runSeeded(*repo, flag.Args()))
 	case *selftest:
 		os.Exit(runSelftest(*repo, flag.Args()))
 	case *list:
